@@ -21,7 +21,8 @@ PROBE_END = {"V": "VS]", "6": "6W]", "D": "DR]", "M": "MS]", "T": "TLI", "P": "P
 
 # unambiguously malformed version strings
 MALFORMED = ["", "1", "1.2", "1..3", ".1.2", "1.2.", ".1.2.3", "1..2.3", "1.2..3", "a.b.c", "1.x.3", "x.2.3", "1.2.y", "-1.2.3", "1.-2.3", "1.2.-3",
-             "1,2,3", "one.two.three", "1.2.3x", "v1.2.3", "9" * 70 + ".1.1", "1.1." + "9" * 70, "..", "1.2.3" + "0" * 64]
+             "1,2,3", "one.two.three", "1.2.3x", "v1.2.3", "9" * 70 + ".1.1", "1.1." + "9" * 70, "..", "1.2.3" + "0" * 64,
+             "0x1.2.3", "1.0x2.3", "1.2.0x3", "0x1.0x2.0x3", "1e0.2.3"]
 WELLFORMED_EXTRA = ["1.2.3-rc1", "1.2.3-4-gabcdef", "01.02.03"]
 
 
@@ -41,6 +42,18 @@ def parse_ok(s):
     if re.match(r"^[ \t+]*\d+\.[ \t+]*\d+\.[ \t+]*\d+([.-].*)?$", s):
         return "unspecified"
     return None
+
+
+def padded_forms(have):
+    """(string, numeric triple) for zero-padded spellings around `have`: decimal numbers
+    with leading zeros (not octal), including the digits 8 and 9."""
+    M, m, p = have
+    out = []
+    for w, fmt in (((M, m, p), "%d.%02d.%d"), ((M, m, p), "%d.%03d.%02d"), ((M, m + 1, 0), "%d.%02d.%d"),
+                   ((M, m + 1, 0), "%d.%03d.%d"), ((M, 8, 0), "%d.%02d.%d"), ((M, 9, 9), "%d.%02d.%02d"),
+                   ((M, m, 8), "%d.%d.%02d"), ((M, m, 19), "%d.%d.%03d"), ((M, 12, 0), "%d.%03d.%d"), ((M, 10, 0), "%d.%03d.%d")):
+        out.append((fmt % w, w))
+    return out
 
 
 def digit_relatives(have):
@@ -76,6 +89,9 @@ def part_a(chk, asan, quick):
         for w in digit_relatives(h):
             pairs.append(("%d.%d.%d" % w, "%d.%d.%d" % h))
             pairs.append(("%d.%d.%d" % h, "%d.%d.%d" % w))
+    for h in [(1, 1, 0), (1, 11, 0), (2, 4, 0)]:
+        for sfm, w in padded_forms(h):
+            pairs.append((sfm, "%d.%d.%d" % h))
     for s in MALFORMED + WELLFORMED_EXTRA:
         pairs.append((s, "1.2.3"))
         pairs.append(("1.2.3", s))
@@ -125,6 +141,8 @@ def part_b(chk, asan, quick):
                     cases.append(("%d.%d.%d" % w, compat(w, lib)))
     for w in digit_relatives(lib):
         cases.append(("%d.%d.%d" % w, compat(w, lib)))
+    for sfm, w in padded_forms(lib):
+        cases.append((sfm, compat(w, lib)))
     cases.append(("%d.0.0" % lib[0], True))
     cases.append(("%d.%d.0" % (lib[0], lib[1] + 100), False))
     for s in MALFORMED:
@@ -278,6 +296,9 @@ def part_c(chk, plain, quick):
         for w in digit_relatives(have):
             cases.append({"kind": "version", "requires": [{name: "%d.%d.%d" % w}], "events": [] if name == "ovni" else [mc],
                           "expect_ok": compat(w, have), "model": name, "want": w, "have": have})
+        for sfm, w in padded_forms(have):
+            cases.append({"kind": "version", "requires": [{name: sfm}], "events": [] if name == "ovni" else [mc],
+                          "expect_ok": compat(w, have), "model": name, "want": sfm, "have": have})
         # truncated and decorated forms of the emulator's own version
         for sfx in ("%d.%d" % have[:2], "%d.%dx" % have[:2], "%d.%d." % have[:2], "%d.%d.%dx.1" % have):
             cases.append({"kind": "malformed", "requires": [{name: sfx}], "events": [],
